@@ -88,7 +88,7 @@ template<class T> struct IO<T,typename std::enable_if<std::is_arithmetic<T>::val
 	static std::string spec(){ return "p"+itos(sizeof(T)); }
 	static void print(T const &v,std::string &o){ o+=hex(std::string(reinterpret_cast<char const*>(&v),sizeof(T))); }
 	static bool build(char const *&p,T &v){ std::string b=unhex(token(p)); if(b.size()!=sizeof(T)) return false; memcpy(&v,b.data(),sizeof(T)); return true; }
-	static bool eq(T const &a,T const &b){ return a==b; }
+	static bool eq(T const &a,T const &b){ return memcmp(&a,&b,sizeof(T))==0; }   // bit equality (NaN, -0.0)
 };
 template<> struct IO<std::string> {
 	static std::string spec(){ return "s"; }
@@ -102,7 +102,7 @@ template<class T> struct IO<std::vector<T>,typename std::enable_if<std::is_arith
 	static bool build(char const *&p,std::vector<T> &v){
 		std::string t=token(p); if(t.empty()) return false; std::string b=unhex(t);
 		if(b.size()%sizeof(T)) return false; v.resize(b.size()/sizeof(T)); if(!b.empty()) memcpy(&v[0],b.data(),b.size()); return true; }
-	static bool eq(std::vector<T> const &a,std::vector<T> const &b){ return a==b; }
+	static bool eq(std::vector<T> const &a,std::vector<T> const &b){ return a.size()==b.size() && (a.empty() || memcmp(&a[0],&b[0],a.size()*sizeof(T))==0); }
 };
 template<class C> struct SeqIO {
 	typedef typename C::value_type E;
@@ -201,7 +201,7 @@ template<> struct IO<rec2> {
 	static bool build(char const *&p,rec2 &v){
 		return eat(p,'(') && IO<int>::build(p,v.id) && eat(p,',') && eat(p,'(') && IO<std::string>::build(p,v.tag) && eat(p,',')
 			&& IO<std::vector<double> >::build(p,v.w) && eat(p,')') && eat(p,')'); }
-	static bool eq(rec2 const &a,rec2 const &b){ return a.id==b.id && a.tag==b.tag && a.w==b.w; }
+	static bool eq(rec2 const &a,rec2 const &b){ return a.id==b.id && a.tag==b.tag && IO<std::vector<double> >::eq(a.w,b.w); }
 };
 // serializable_base with separate save/load, as_pod, POD array, generic array == P p8 P p12 P s s
 struct rec3 : public cppcms::serializable_base {
